@@ -280,6 +280,13 @@ class Parser:
 
         for num, self.line in enumerate(lines):
             self.process_line(num != len(lines) - 1)
+        if self.statement and not self.set_line:
+            # a statement that starts on the last line (the previous one was not terminated by ';')
+            # has no following line to flush it
+            self.statement = self.statement.rstrip(";")
+            self.set_default_flags_in_lexer()
+            self.parse_statement()
+            self.statement = None
         if self.set_line:
             # a SET statement on the last line has no following line to flush it
             self.process_set()
